@@ -80,8 +80,9 @@ class Formatter:
         "MMM": "months.abbreviated",
         "Mo": None,
         "DDDo": None,
-        "Do": lambda locale: tuple(
-            rf"\d+{o}" for o in (locale.get("custom.ordinal") or {"": ""}).values()
+        "Do": lambda locale: (
+            *(rf"\d+{o}" for o in (locale.get("custom.ordinal") or {}).values()),
+            r"\d+",
         ),
         "dddd": "days.wide",
         "ddd": "days.abbreviated",
